@@ -37,6 +37,17 @@ SEA_CLASSES = {"SEA": SEA, "SEAX": SEAWithCrossover, "GA": GAStyleSEA, "ADAPT": 
 POP_ENGINES = set(SEA_CLASSES) | {"DE", "DEd", "SHADE"}
 
 
+class CustomLevelConfig(EALevelConfig):
+    """A user-defined level configuration class (C07: custom deme classes registered through the config)."""
+
+
+from pyhms.demes.ea_deme import EADeme  # noqa: E402
+
+
+class CustomDeme(EADeme):
+    """A user-defined deme class registered through TreeConfig.config_class_to_deme_class."""
+
+
 class RefusalProbe(ProblemWrapper):
     """Harness-owned wrapper placed directly above an EvalCutoffProblem: counts evaluations that did not
     reach the recorder (i.e. were refused by the cutoff)."""
@@ -169,8 +180,8 @@ def _level(lv, problem, lsc, bounds, depth):
     e = lv["engine"]
     rng = _range(bounds)
     shrink = 1.0 / (3.0 ** depth)
-    if e in SEA_CLASSES:
-        kw = dict(ea_class=SEA_CLASSES[e], pop_size=int(lv.get("pop", 6)), problem=problem, lsc=lsc,
+    if e in SEA_CLASSES or e == "CUSTOM":
+        kw = dict(ea_class=SEA_CLASSES.get(e, SEA), pop_size=int(lv.get("pop", 6)), problem=problem, lsc=lsc,
                   generations=int(lv.get("gens", 1)), mutation_std=float(lv.get("mstd", 0.15)) * rng * shrink,
                   sample_std_dev=float(lv.get("sstd", 0.1)) * rng * shrink)
         for k in ("p_mutation", "p_crossover", "k_elites", "election_group_size"):
@@ -178,7 +189,7 @@ def _level(lv, problem, lsc, bounds, depth):
                 kw[k] = lv[k]
         if "mstep" in lv:
             kw["mutation_std_step"] = float(lv["mstep"]) * rng
-        return EALevelConfig(**kw)
+        return CustomLevelConfig(**kw) if e == "CUSTOM" else EALevelConfig(**kw)
     if e in ("DE", "DEd"):
         return DELevelConfig(pop_size=int(lv.get("pop", 6)), problem=problem, lsc=lsc,
                              generations=int(lv.get("gens", 1)), dither=(e == "DEd"),
@@ -337,7 +348,10 @@ def build(spec: dict):
     options = {"log_level": "warning", "hibernation": bool(spec.get("hibernation", False))}
     if spec.get("seed") is not None:
         options["random_seed"] = int(spec["seed"])
-    cfg = TreeConfig(levels, gsc, sm, options=options)
+    if any(lv["engine"] == "CUSTOM" for lv in spec["levels"]):
+        cfg = TreeConfig(levels, gsc, sm, options=options, config_class_to_deme_class={CustomLevelConfig: CustomDeme})
+    else:
+        cfg = TreeConfig(levels, gsc, sm, options=options)
     return cfg, rec
 
 
@@ -346,11 +360,13 @@ def cfg_summary(spec: dict) -> dict:
     eng = []
     for lv in spec["levels"]:
         e = lv["engine"]
-        kind = ("SEA" if e in SEA_CLASSES else "DE" if e in ("DE", "DEd") else "CMA" if e.startswith("CMA") else e)
-        eng.append({"eng": kind, "variant": e, "pop": int(lv.get("pop", 6 if kind != "SOBOL" else 8)) if kind not in ("CMA", "LOCAL") else 0,
+        kind = ("SEA" if e in SEA_CLASSES or e == "CUSTOM" else "DE" if e in ("DE", "DEd") else "CMA" if e.startswith("CMA") else e)
+        cls = {"SEA": "EADeme", "DE": "DEDeme", "SHADE": "SHADEDeme", "CMA": "CMADeme", "LOCAL": "LocalDeme", "LHS": "LHSDeme",
+               "SOBOL": "SobolDeme"}[kind] if e != "CUSTOM" else "CustomDeme"
+        eng.append({"eng": kind, "variant": e, "cls": cls, "pop": int(lv.get("pop", 6 if kind != "SOBOL" else 8)) if kind not in ("CMA", "LOCAL") else 0,
                     "gens": int(lv.get("gens", 1)) if kind not in ("LOCAL", "LHS", "SOBOL") else 1,
                     "lsc": lv.get("lsc", {}).get("kind", "DontStop"), "lscn": int(lv.get("lsc", {}).get("n", 0)),
-                    "elite": int(lv.get("k_elites", 1)) if e in SEA_CLASSES and e != "MWEA" else 0})
+                    "elite": int(lv.get("k_elites", 1)) if (e in SEA_CLASSES and e != "MWEA") or e == "CUSTOM" else 0})
     g = spec["gsc"]
     w = g.get("w", "equal")
     nl = len(spec["levels"])
